@@ -76,7 +76,7 @@ package checkers
 //@   nosafety node shapes are the subject of the C01 sweep
 //@   requires c != nil && c.ctx != nil && c.ctx.Context != nil && c.ctx.TypesInfo != nil
 //@   call (*rangeExprCopyChecker).warn requires @quoted-size arg2 == sizesSizeof(c.ctx.SizesInfo, c.ctx.TypesInfo.Types[cast(stmt, "*ast.RangeStmt").X].Type)
-//@   ensures @boundary-exact emitted(warned) == old(emitted(warned)) + ite(typeIs(stmt, "*ast.RangeStmt") && cast(stmt, "*ast.RangeStmt").Key != nil && cast(stmt, "*ast.RangeStmt").Value != nil && tvAddressable(c.ctx.TypesInfo.Types[cast(stmt, "*ast.RangeStmt").X]) && typeIs(c.ctx.TypesInfo.Types[cast(stmt, "*ast.RangeStmt").X].Type, "*types.Array") && sizeOKSpec(c.ctx, c.ctx.TypesInfo.Types[cast(stmt, "*ast.RangeStmt").X].Type) && sizesSizeof(c.ctx.SizesInfo, c.ctx.TypesInfo.Types[cast(stmt, "*ast.RangeStmt").X].Type) >= c.sizeThreshold, 1, 0)
+//@   ensures @boundary-exact emitted(warned) == old(emitted(warned)) + ite(typeIs(stmt, "*ast.RangeStmt") && cast(stmt, "*ast.RangeStmt").Key != nil && cast(stmt, "*ast.RangeStmt").Value != nil && tvAddressable(c.ctx.TypesInfo.Types[cast(stmt, "*ast.RangeStmt").X]) && typeIs(typesUnalias(c.ctx.TypesInfo.Types[cast(stmt, "*ast.RangeStmt").X].Type), "*types.Array") && sizeOKSpec(c.ctx, c.ctx.TypesInfo.Types[cast(stmt, "*ast.RangeStmt").X].Type) && sizesSizeof(c.ctx.SizesInfo, c.ctx.TypesInfo.Types[cast(stmt, "*ast.RangeStmt").X].Type) >= c.sizeThreshold, 1, 0)
 
 //@ func init@nestingReduce_checker.go$1
 //@   prop C14
